@@ -222,7 +222,13 @@ pub mod parser {
     ///  b = {stroke: blue}
     ///
     fn css_legend<'a>() -> Parser<'a, char, Vec<(String, String)>> {
-        (space() - sym('#') - space() - tag("Legend:") - space() - new_line())
+        // the header may also be the very last line of the input, without a line end
+        (space()
+            - sym('#')
+            - space()
+            - tag("Legend:")
+            - space()
+            - (new_line() | end()))
             * css_style_list()
     }
 
